@@ -236,7 +236,7 @@ impl Engine {
         } else if fail_hits {
             tags = vec!["C07"];
             Expect::Err
-        } else if self.oracle_blocks() {
+        } else if self.oracle_blocks() || self.m.cfg.channel != self.ch.channel {
             Expect::Err
         } else if unusual && to_protocol {
             Expect::Any
@@ -797,6 +797,7 @@ impl Engine {
                 Some((f, _)) if f == r => (Expect::Any, vec![]),
                 Some(_) if fail => (Expect::Err, vec!["C07"]),
                 Some(_) if self.oracle_blocks() => (Expect::Err, vec!["C15"]),
+                Some(_) if self.m.cfg.channel != self.ch.channel => (Expect::Err, vec!["C07"]),
                 Some(_) => (Expect::Ok, vec!["C11", "C09"]),
             }
         };
@@ -1064,6 +1065,7 @@ impl Engine {
                 }
             }
         };
+        let fail = fail || self.m.cfg.channel != self.ch.channel;
         if fail {
             self.ch.fail_transfer = Some(0);
         }
@@ -1362,6 +1364,30 @@ impl Engine {
                 let mut n = self.native_cfg();
                 n.unbonding_period = next.unbonding;
                 nc = Some(n);
+            }
+            CfgChange::Staker(i) | CfgChange::Collector(i) => {
+                let pick = match i % 6 {
+                    4 => if matches!(change, CfgChange::Staker(_)) { self.m.cfg.collector.clone() } else { self.m.cfg.staker.clone() },
+                    5 => if matches!(change, CfgChange::Staker(_)) { self.a.staker.clone() } else { self.a.collector.clone() },
+                    k => self.a.natives[k as usize % self.a.natives.len()].clone(),
+                };
+                if matches!(change, CfgChange::Staker(_)) {
+                    next.staker = pick;
+                } else {
+                    next.collector = pick;
+                }
+                let mut n = self.native_cfg();
+                n.staker_address = next.staker.clone();
+                n.reward_collector_address = next.collector.clone();
+                nc = Some(n);
+                self.identity_changed = true;
+            }
+            CfgChange::Channel(other) => {
+                next.channel = if *other { self.a.other_channel.clone() } else { self.a.channel.clone() };
+                let mut p = self.protocol_cfg();
+                p.ibc_channel_id = next.channel.clone();
+                pc = Some(p);
+                self.identity_changed = true;
             }
             CfgChange::Identity => {
                 nc = Some(self.native_cfg());
